@@ -222,6 +222,9 @@ def run(ctx):
     # TWO disjoint repeating groups in one element (regular rounds), a single element between them; and three groups
     xml_files(ctx, {"s0.xml": "<Root><sku>a</sku><qty>1</qty><sku>b</sku><qty>2</qty><note>n</note><code>c</code><amount>1.5</amount><code>d</code><amount>2.5</amount></Root>"})
     xml_files(ctx, {"s0.xml": "<Root><a>1</a><b>x</b><a>2</a><b>y</b><c>t</c><d>1</d><c>u</c><d>2</d><e>p</e><f>q</f><e>r</e><f>s</f><e>v</e><f>w</f></Root>"})
+    # JSON literals that are EQUAL in Python and differ in JSON (1 / true / 1.0, 0 / false / 0.0, 2 / 2.0): each key keeps its type
+    json_files(ctx, {"s0.json": '{"id": 1, "paid": true, "ratio": 1.0, "zero": 0, "off": false, "none": 0.0, "two": 2, "twof": 2.0, "rows": [{"n": 1, "ok": true}, {"n": 0, "ok": false}]}'})
+    json_files(ctx, {"s0.json": '{"paid": true, "id": 1, "rows": [{"ok": false, "n": 0}]}', "s1.json": '{"paid": false, "id": 0, "rows": [{"ok": true, "n": 1}]}'})
     namespace_mixes(ctx)
     mixed_samples(ctx)
     cg.cleanup_all()
@@ -346,7 +349,10 @@ def json_case(ctx, c, n):
     docs = [sample_json(d, multi) for d in c["samples"]]
     if any(not d for d in docs):
         return
-    files = {f"s{k}.json": json.dumps(d) for k, d in enumerate(docs)}
+    json_files(ctx, {f"s{k}.json": json.dumps(d) for k, d in enumerate(docs)})
+
+
+def json_files(ctx, files):
     gen = cg.generate(files, sorted(files), pkg=None)
     try:
         info = {"samples": files}
